@@ -199,9 +199,10 @@ Proof.
     destruct (mk_vals k (a_full a)); [destruct Hv as [-> _]; apply leqb_refl | subst; rewrite Hv; reflexivity | contradiction].
   - (* mask *)
     unfold cl_mask. simpl.
-    destruct (a_mask a) as [b|ms w].
+    destruct (a_mask a) as [b|ms w v0].
     + inversion EMask; subst. reflexivity.
-    + destruct (leqb ms (firstn nn (a_full a))) eqn:E1.
+    + destruct (is_nil ms && is_nil (firstn nn (a_full a))); [inversion EMask; subst; reflexivity|].
+      destruct (leqb ms (firstn nn (a_full a))) eqn:E1.
       * inversion EMask; subst. apply leqb_refl.
       * destruct (bshape ms (firstn nn (a_full a))) as [r|]; [|discriminate].
         destruct (leqb r (firstn nn (a_full a))); [|discriminate].
@@ -241,9 +242,10 @@ Proof.
     set (vw := if kind_eqb k (a_kind a) then a_vw a else true) in *.
     destruct (negb (is_nil (a_full a))) eqn:Earr; simpl.
     + destruct vw eqn:Evw; simpl; auto.
-      destruct (a_mask a) as [b|ms w].
+      destruct (a_mask a) as [b|ms w v0].
       * inversion EMask; subst. reflexivity.
-      * destruct (leqb ms (firstn nn (a_full a))).
+      * destruct (is_nil ms && is_nil (firstn nn (a_full a))); [inversion EMask; subst; reflexivity|].
+        destruct (leqb ms (firstn nn (a_full a))).
         { inversion EMask; subst. rewrite andb_false_r. reflexivity. }
         destruct (bshape ms (firstn nn (a_full a))) as [r|]; [|discriminate].
         destruct (leqb r (firstn nn (a_full a))); [|discriminate].
